@@ -646,11 +646,16 @@ class Program:
         if fi.cls is None or not fi.params():
             return fi
         me = fi.params()[0]
+        # __eq__ compares two objects of one class (the class guard comes
+        # first): `other` sees the same class level configuration
+        recv = {me}
+        if fi.name == "__eq__" and len(fi.params()) > 1:
+            recv.add(fi.params()[1])
         keep = baseline()
         hits = {}
         for n in ast.walk(fi.node):
             if isinstance(n, ast.Attribute) and isinstance(
-                    n.value, ast.Name) and n.value.id == me and isinstance(
+                    n.value, ast.Name) and n.value.id in recv and isinstance(
                     n.ctx, ast.Load):
                 owner = None
                 for c in self.mro(K):
